@@ -332,6 +332,40 @@ Proof.
   - eapply Permutation_trans; eassumption.
 Qed.
 
+(* ---- step (2): a store of unit weights built from a sorted list of indices ---- *)
+Lemma total_unit_keys (l : list Z) : total (map (fun i => (i, w1)) l) = inj (Z.of_nat (length l)).
+Proof.
+  induction l as [|i l IH]; [reflexivity|]. cbn [map length]. rewrite total_cons, IH, Nat2Z.inj_succ.
+  unfold Z.succ. rewrite inj_plus, inj_1. wring.
+Qed.
+(* for r < length l the selected key is the element at position floor r (position 0 for r < 0) *)
+Theorem key_at_rank_sorted_units (l : list Z) r d :
+  StronglySorted Z.le l -> l <> [] -> r < inj (Z.of_nat (length l)) ->
+  key_at_rank (bins_of_list (map (fun i => (i, w1)) l)) r = Some (nth (Z.to_nat (cfloor r)) l d).
+Proof.
+  intros Hs Hne Hr. destruct (floor_nat_cond r) as [C1 C2].
+  apply cfloor_ub in Hr.
+  assert (Hlen : length l <> 0%nat) by (intros E; apply length_zero_iff_nil in E; contradiction).
+  remember (Z.to_nat (cfloor r)) as t eqn:Et.
+  assert (Ht : (t < length l)%nat) by lia.
+  pose proof (nth_split_eq l t d Ht) as E. remember (nth t l d) as x eqn:Ex.
+  assert (L1 : length (firstn t l) = t) by (rewrite firstn_length; lia).
+  rewrite E at 1. rewrite E in Hs. destruct (ssorted_split _ _ _ _ Hs) as [S1 S2].
+  rewrite Forall_forall in S1, S2.
+  assert (Hpos : forall l' : list Z, pos (map (fun i => (i, w1)) l')).
+  { intros l'. unfold pos. apply Forall_forall. intros kw Hin.
+    apply in_map_iff in Hin. destruct Hin as [i [<- _]]. cbn [snd]. unfold w0, w1. wlra. }
+  specialize (Hpos (firstn t l ++ x :: skipn (S t) l)).
+  rewrite map_app in *. cbn [map] in *.
+  apply kar_split.
+  - exact Hpos.
+  - intros k' Hk'. rewrite map_map in Hk'. cbn [fst] in Hk'. rewrite map_id in Hk'. apply S1. exact Hk'.
+  - intros k' Hk'. rewrite map_map in Hk'. cbn [fst] in Hk'. rewrite map_id in Hk'. apply S2. exact Hk'.
+  - rewrite total_unit_keys, L1. destruct C1 as [C1|C1]; [left; exact C1|]. right.
+    assert (E0 : firstn t l = []) by (apply length_zero_iff_nil; lia). rewrite E0. reflexivity.
+  - left. rewrite total_unit_keys, L1. exact C2.
+Qed.
+
 (* ================================================================== *)
 (** * 3. Weighted values and the content of the sketch                 *)
 (* ================================================================== *)
@@ -991,6 +1025,25 @@ Proof.
   rewrite E2 in Hx. apply in_app_iff in Hx. rewrite Forall_forall in S1.
   destruct Hx as [Hx|[<-|[]]]; [apply S1; exact Hx|apply Qcle_refl].
 Qed.
+
+(* Theorem A with the range condition |x| <= am_max as premise (all values are then accepted) *)
+Corollary quantile_selects_order_statistic_inrange (xs ys : list Qc) q :
+  (forall x, In x xs -> Qcabs x <= am_max m) ->
+  Permutation xs ys -> Sorted Qcle ys -> xs <> [] ->
+  (Z.of_nat (length xs) <= B)%Z -> 0 <= q -> q <= 1 ->
+  exists s, a_add_list a_new (map unit_item xs) = Some s /\
+  exists k : nat,
+    (cfloor (q * inj (Z.of_nat (length xs) - 1)) <= Z.of_nat k
+     <= cceil (q * inj (Z.of_nat (length xs) - 1)))%Z /\
+    (k < length xs)%nat /\
+    a_quantile rnd m s q = Some (repr (nth k ys 0)).
+Proof.
+  intros Hr Hperm Hs Hne HB Hq0 Hq1.
+  destruct (a_add_list_total (map unit_item xs) a_new) as [s Hs'].
+  { intros a Ha. apply in_map_iff in Ha. destruct Ha as [x [<- Hx]]. apply Hr. exact Hx. }
+  exists s. split; [exact Hs'|].
+  exact (quantile_selects_order_statistic xs ys s q Hs' Hperm Hs Hne HB Hq0 Hq1).
+Qed.
 End Units.
 
 (* ================================================================== *)
@@ -1110,7 +1163,11 @@ Proof.
       apply select_neg; assumption. }
     assert (EwN : wsum N = wsum n1 + snd a + wsum n2).
     { rewrite EN, wsum_app, wsum_cons. wring. }
-    pose proof (wsum_nonneg n1 (proj1 (proj1 (Forall_app _ _ _) (eq_ind _ wpos HwN _ EN)))) as Hn1.
+    assert (Hparts : w0 <= wsum n1 /\ w0 < snd a /\ w0 <= wsum n2).
+    { pose proof HwN as H. rewrite EN in H. apply Forall_app in H. destruct H as [H1 H2].
+      apply Forall_cons_iff in H2. destruct H2 as [H2 H3].
+      split; [apply wsum_nonneg; exact H1|]. split; [exact H2|apply wsum_nonneg; exact H3]. }
+    destruct Hparts as [Hn1 [Hca Hn2]].
     exists n1, a, (n2 ++ Zs ++ P). split; [rewrite EN at 1; rewrite <- app_assoc; reflexivity|].
     split.
     { rewrite (repr_N a HaN). apply a_quantile_neg; [exact Hcne|rewrite Hrank, TN; exact Hbr|].
@@ -1126,6 +1183,11 @@ Proof.
       { rewrite Forall_forall in HZ. apply HZ. rewrite EZ. apply in_elt. }
       assert (EwZ : wsum Zs = wsum z1 + snd a + wsum z2).
       { rewrite EZ, wsum_app, wsum_cons. wring. }
+      assert (Hparts : w0 <= wsum z1 /\ w0 < snd a /\ w0 <= wsum z2).
+      { pose proof HwZ as H. rewrite EZ in H. apply Forall_app in H. destruct H as [H1 H2].
+        apply Forall_cons_iff in H2. destruct H2 as [H2 H3].
+        split; [apply wsum_nonneg; exact H1|]. split; [exact H2|apply wsum_nonneg; exact H3]. }
+      destruct Hparts as [Hz1 [Hca Hz2]].
       exists (N ++ z1), a, (z2 ++ P). split.
       { rewrite EZ at 1. rewrite <- !app_assoc. reflexivity. }
       split.
@@ -1144,6 +1206,11 @@ Proof.
         apply select_pos; assumption. }
       assert (EwP : wsum P = wsum p1 + snd a + wsum p2).
       { rewrite EP, wsum_app, wsum_cons. wring. }
+      assert (Hparts : w0 <= wsum p1 /\ w0 < snd a /\ w0 <= wsum p2).
+      { pose proof HwP as H. rewrite EP in H. apply Forall_app in H. destruct H as [H1 H2].
+        apply Forall_cons_iff in H2. destruct H2 as [H2 H3].
+        split; [apply wsum_nonneg; exact H1|]. split; [exact H2|apply wsum_nonneg; exact H3]. }
+      destruct Hparts as [Hp1 [Hca Hp2]].
       exists (N ++ Zs ++ p1), a, p2. split.
       { rewrite EP at 1. rewrite <- !app_assoc. reflexivity. }
       split.
@@ -1153,4 +1220,475 @@ Proof.
       rewrite !wsum_app. split.
       * apply R3; [|qlra]. destruct C1 as [C1|C1]; [qlra|]. subst p1. rewrite wsum_nil. qlra.
       * destruct C2 as [C2|C2]; [qlra|]. subst p2. rewrite wsum_nil in EwP. qlra.
+Qed.
+
+(* THEOREM B (exact rank arithmetic): the answer is the representative of the j-th smallest value,
+   where the cumulative weights C_j (before) and C_j + c_j (after) bracket the rank q*(W-1):
+   C_j - 1 <= q*(W-1) < C_j + c_j *)
+Theorem weighted_quantile_exact xs ys s q :
+  a_add_list a_new xs = Some s -> Permutation xs ys -> StronglySorted vle ys -> wpos ys ->
+  ys <> [] -> 0 <= q -> q <= 1 ->
+  exists l1 a l2,
+    ys = l1 ++ a :: l2 /\
+    a_quantile idr m s q = Some (repr (fst a)) /\
+    wsum l1 - 1 <= q * (wsum ys - 1) /\
+    q * (wsum ys - 1) < wsum l1 + snd a.
+Proof.
+  intros Hadd Hperm Hs Hw Hne Hq0 Hq1.
+  assert (Hwx : wpos xs) by (apply (wpos_perm ys); [apply Permutation_sym; exact Hperm|exact Hw]).
+  destruct (sketch_content xs ys s Hadd Hperm Hwx) as [CP [CN [CZ Hok]]].
+  pose proof (sorted_decomp ys Hs) as Hdec.
+  pose proof (weighted_exact_core (filter isN ys) (filter isZ ys) (filter isP ys) s q) as G.
+  rewrite <- Hdec in G. apply G; try assumption; apply Forall_filter_true.
+Qed.
+
+Lemma firstn_app_len {A} (l1 l2 : list A) : firstn (length l1) (l1 ++ l2) = l1.
+Proof. induction l1 as [|a l1 IH]; [reflexivity|]. cbn [length app firstn]. rewrite IH. reflexivity. Qed.
+Lemma firstn_app_len_S {A} (l1 : list A) a l2 :
+  firstn (S (length l1)) (l1 ++ a :: l2) = l1 ++ [a].
+Proof.
+  induction l1 as [|b l1 IH]; [reflexivity|].
+  cbn [length app]. rewrite firstn_cons. rewrite IH. reflexivity.
+Qed.
+
+(* the same, by position in the sorted list: C_j = total weight of the first j values *)
+Corollary weighted_quantile_exact_nth xs ys s q d :
+  a_add_list a_new xs = Some s -> Permutation xs ys -> StronglySorted vle ys -> wpos ys ->
+  ys <> [] -> 0 <= q -> q <= 1 ->
+  exists j : nat,
+    (j < length ys)%nat /\
+    a_quantile idr m s q = Some (repr (fst (nth j ys d))) /\
+    wsum (firstn j ys) - 1 <= q * (wsum ys - 1) /\
+    q * (wsum ys - 1) < wsum (firstn (S j) ys).
+Proof.
+  intros Hadd Hperm Hs Hw Hne Hq0 Hq1.
+  destruct (weighted_quantile_exact xs ys s q Hadd Hperm Hs Hw Hne Hq0 Hq1)
+    as [l1 [a [l2 [E [K1 [K2 K3]]]]]].
+  assert (E1 : nth (length l1) ys d = a) by (rewrite E; apply nth_middle).
+  assert (E2 : firstn (length l1) ys = l1) by (rewrite E; apply firstn_app_len).
+  assert (E3 : firstn (S (length l1)) ys = l1 ++ [a]) by (rewrite E; apply firstn_app_len_S).
+  assert (E4 : (length l1 < length ys)%nat) by (rewrite E, app_length; cbn [length]; lia).
+  exists (length l1). rewrite E1, E2, E3.
+  split; [exact E4|]. split; [exact K1|]. split; [exact K2|].
+  rewrite wsum_app, wsum_cons, wsum_nil. qlra.
+Qed.
+
+(* the answer is the representative of an absorbed value *)
+Corollary weighted_quantile_absorbed xs ys s q :
+  a_add_list a_new xs = Some s -> Permutation xs ys -> StronglySorted vle ys -> wpos ys ->
+  ys <> [] -> 0 <= q -> q <= 1 ->
+  exists a, In a xs /\ a_quantile idr m s q = Some (repr (fst a)).
+Proof.
+  intros Hadd Hperm Hs Hw Hne Hq0 Hq1.
+  destruct (weighted_quantile_exact xs ys s q Hadd Hperm Hs Hw Hne Hq0 Hq1)
+    as [l1 [a [l2 [E [K1 _]]]]].
+  exists a. split; [|exact K1]. apply (Permutation_in _ (Permutation_sym Hperm)).
+  rewrite E. apply in_elt.
+Qed.
+(* if every value is above am_min the answer comes from the positive store *)
+Corollary weighted_quantile_all_positive xs ys s q :
+  a_add_list a_new xs = Some s -> Permutation xs ys -> StronglySorted vle ys -> wpos ys ->
+  ys <> [] -> 0 <= q -> q <= 1 ->
+  (forall a, In a xs -> am_min m < fst a) ->
+  exists a, In a xs /\ a_quantile idr m s q = Some (am_value m (am_index m (fst a))).
+Proof.
+  intros Hadd Hperm Hs Hw Hne Hq0 Hq1 Hall.
+  destruct (weighted_quantile_absorbed xs ys s q Hadd Hperm Hs Hw Hne Hq0 Hq1) as [a [Ha K]].
+  exists a. split; [exact Ha|]. rewrite K. f_equal. apply repr_P. apply isP_true. apply Hall. exact Ha.
+Qed.
+
+(* ================================================================== *)
+(** * 5b. Theorem B under rounding, for integer weights                *)
+(* ================================================================== *)
+
+(* positive integer weights (what AddWithCount receives from integer counts) *)
+Definition intw (l : list item) : Prop :=
+  Forall (fun a : item => exists z : Z, (0 < z)%Z /\ snd a = inj z) l.
+Lemma intw_wpos l : intw l -> wpos l.
+Proof.
+  unfold intw, wpos. apply Forall_impl. intros a [z [Hz ->]]. change w0 with (inj 0).
+  apply inj_mono_lt. exact Hz.
+Qed.
+Lemma intw_wsum l : intw l -> exists z, (0 <= z)%Z /\ wsum l = inj z.
+Proof.
+  induction l as [|a l IH]; intros H.
+  - exists 0%Z. split; [lia|reflexivity].
+  - inversion H as [|a' l' [z [Hz Ea]] Hl]; subst. destruct (IH Hl) as [z' [Hz' E']].
+    exists (z + z')%Z. split; [lia|]. rewrite wsum_cons, Ea, E', inj_plus. reflexivity.
+Qed.
+Lemma units_intw l : units l -> intw l.
+Proof. unfold units, intw. apply Forall_impl. intros a ->. exists 1%Z. split; [lia|reflexivity]. Qed.
+
+Section IntegerWeights.
+Variable rnd : Qc -> Qc.
+Variable B : Z.
+Hypothesis rnd_mono : forall x y, x <= y -> rnd x <= rnd y.
+Hypothesis rnd_int : forall z : Z, (Z.abs z <= B)%Z -> rnd (inj z) = inj z.
+
+Lemma weighted_integer_core N Zs P s q n :
+  intw (N ++ Zs ++ P) -> StronglySorted vle (N ++ Zs ++ P) -> Forall okv (N ++ Zs ++ P) ->
+  Forall (fun a => isN a = true) N -> Forall (fun a => isZ a = true) Zs ->
+  Forall (fun a => isP a = true) P ->
+  a_pos s = bins_of_list (map kpos P) -> a_neg s = bins_of_list (map kneg N) ->
+  a_zero s = wsum Zs ->
+  N ++ Zs ++ P <> [] -> wsum (N ++ Zs ++ P) = inj n -> (n <= B)%Z -> 0 <= q -> q <= 1 ->
+  exists l1 a l2 (k : Z),
+    N ++ Zs ++ P = l1 ++ a :: l2 /\
+    a_quantile rnd m s q = Some (repr (fst a)) /\
+    (cfloor (q * inj (n - 1)) <= k <= cceil (q * inj (n - 1)))%Z /\
+    wsum l1 <= inj k /\ inj k < wsum l1 + snd a.
+Proof.
+  intros Hi Hs Hok HN HZ HP CP CN CZ Hne HWn HB Hq0 Hq1.
+  pose proof (intw_wpos _ Hi) as Hw.
+  pose proof Hi as Hi'. unfold intw in Hi'. apply Forall_app in Hi'. destruct Hi' as [HiN Hi'].
+  apply Forall_app in Hi'. destruct Hi' as [HiZ HiP].
+  pose proof (intw_wpos _ HiN) as HwN. pose proof (intw_wpos _ HiZ) as HwZ.
+  pose proof (intw_wpos _ HiP) as HwP.
+  pose proof Hok as Hok'. apply Forall_app in Hok'. destruct Hok' as [HokN Hok'].
+  apply Forall_app in Hok'. destruct Hok' as [_ HokP].
+  destruct (ssorted_app _ _ _ Hs) as [HsN Hs']. destruct (ssorted_app _ _ _ Hs') as [_ HsP].
+  destruct (intw_wsum N HiN) as [zN [HzN EN0]]. destruct (intw_wsum Zs HiZ) as [zZ [HzZ EZ0]].
+  destruct (intw_wsum P HiP) as [zP [HzP EP0]].
+  assert (TN : total (a_neg s) = inj zN).
+  { rewrite CN, total_bins_of_list. unfold kneg. rewrite total_map_key. exact EN0. }
+  assert (TP : total (a_pos s) = inj zP).
+  { rewrite CP, total_bins_of_list. unfold kpos. rewrite total_map_key. exact EP0. }
+  assert (TZ : a_zero s = inj zZ) by (rewrite CZ; exact EZ0).
+  assert (Hlen : n = (zN + zZ + zP)%Z).
+  { apply inj_inj. rewrite <- HWn, !wsum_app, EN0, EZ0, EP0, !inj_plus. wring. }
+  assert (Hn1 : (1 <= n)%Z).
+  { pose proof (wsum_pos _ Hw Hne) as H. rewrite HWn in H. change w0 with (inj 0) in H.
+    apply inj_lt in H. lia. }
+  assert (Hcount : a_count s = inj n).
+  { unfold a_count. rewrite TN, TZ, TP, Hlen, !inj_plus. wring. }
+  assert (Hcne : a_count s <> w0).
+  { rewrite Hcount. intros E. change w0 with (inj 0) in E. apply inj_inj in E. lia. }
+  destruct (rank_bracket rnd B rnd_mono rnd_int n q (conj Hn1 HB) Hq0 Hq1) as [Hf0 [Hc1 [Hlo [Hhi _]]]].
+  cbv zeta in Hf0, Hc1, Hlo, Hhi.
+  pose proof (cfloor_le_cceil (q * inj (n - 1))) as Hfc.
+  remember (cfloor (q * inj (n - 1))) as f eqn:Ef. remember (cceil (q * inj (n - 1))) as c eqn:Ec.
+  clear Ef Ec.
+  assert (Hrank : a_rank rnd s q = rnd (q * rnd (inj (n - 1)))).
+  { unfold a_rank. cbv zeta. rewrite Hcount.
+    replace (wsub (inj n) w1) with (inj (n - 1)) by (rewrite inj_minus, inj_1; reflexivity).
+    unfold wmul. destruct (wltb_spec (rnd (q * rnd (inj (n - 1)))) w0) as [E|E]; [|reflexivity].
+    exfalso. pose proof (inj_nonneg f Hf0) as H0. qlra. }
+  remember (rnd (q * rnd (inj (n - 1)))) as rho eqn:Erho. clear Erho.
+  assert (AbsN : (Z.abs (zN - 1) <= B)%Z) by lia.
+  (* parts of a split of a class *)
+  assert (Hsplit : forall l l1 a l2, intw l -> l = l1 ++ a :: l2 ->
+            exists y1 ca y2, (0 <= y1)%Z /\ (0 < ca)%Z /\ (0 <= y2)%Z /\
+              wsum l1 = inj y1 /\ snd a = inj ca /\ wsum l2 = inj y2 /\
+              wsum l = inj (y1 + ca + y2)).
+  { intros l l1 a l2 Hl E. rewrite E in Hl. unfold intw in Hl. apply Forall_app in Hl.
+    destruct Hl as [H1 H2]. apply Forall_cons_iff in H2. destruct H2 as [[ca [Hca Ea]] H2].
+    destruct (intw_wsum l1 H1) as [y1 [Hy1 E1]]. destruct (intw_wsum l2 H2) as [y2 [Hy2 E2]].
+    exists y1, ca, y2. repeat (split; [assumption|]).
+    rewrite E, wsum_app, wsum_cons, E1, Ea, E2, !inj_plus. wring. }
+  destruct (Qclt_le_dec rho (inj zN)) as [Hbr|Hbr].
+  - (* negative branch *)
+    assert (Hfn : (f < zN)%Z). { apply inj_lt. eapply Qcle_lt_trans; eassumption. }
+    remember (rnd (wsub (rnd (wsub (inj zN) w1)) rho)) as r' eqn:Er'.
+    assert (Er'' : r' = rnd (inj (zN - 1) - rho)).
+    { rewrite Er'. replace (wsub (inj zN) w1) with (inj (zN - 1)) by (rewrite inj_minus, inj_1; reflexivity).
+      rewrite (rnd_int (zN - 1) AbsN). reflexivity. }
+    assert (Hr'lo : inj (zN - 1 - c) <= r').
+    { rewrite Er''. apply (rnd_ge_int rnd B rnd_mono rnd_int); [lia|].
+      rewrite !inj_minus, inj_1. qlra. }
+    assert (Hr'hi : r' <= inj (zN - 1 - f)).
+    { rewrite Er''. apply (rnd_le_int rnd B rnd_mono rnd_int); [lia|].
+      rewrite !inj_minus, inj_1. qlra. }
+    assert (HNne : N <> []).
+    { intros E. subst N. rewrite wsum_nil in EN0. change w0 with (inj 0) in EN0.
+      apply inj_inj in EN0. lia. }
+    destruct (find_split_r N r' HwN HNne) as [n1 [a [n2 [EN [C1 C2]]]]].
+    destruct (Hsplit N n1 a n2 HiN EN) as [y1 [ca [y2 [Hy1 [Hca [Hy2 [E1 [Ea [E2 Et]]]]]]]]].
+    rewrite EN0 in Et. apply inj_inj in Et.
+    assert (HaN : isN a = true).
+    { rewrite Forall_forall in HN. apply HN. rewrite EN. apply in_elt. }
+    assert (Hsel : key_at_rank (a_neg s) r' = Some (am_index m (- fst a))).
+    { rewrite CN. rewrite EN at 1. rewrite EN in HwN, HN, HokN, HsN.
+      apply select_neg; assumption. }
+    assert (K1 : (y1 <= c)%Z).
+    { destruct C2 as [C2|C2].
+      - rewrite E2, Ea, <- inj_plus in C2.
+        assert (H : inj (zN - 1 - c) < inj (y2 + ca)) by (eapply Qcle_lt_trans; eassumption).
+        apply inj_lt in H. lia.
+      - subst n1. rewrite wsum_nil in E1. change w0 with (inj 0) in E1. apply inj_inj in E1. lia. }
+    assert (K2 : (f < y1 + ca)%Z).
+    { destruct C1 as [C1|C1].
+      - rewrite E2 in C1. assert (H : inj y2 <= inj (zN - 1 - f)) by (eapply Qcle_trans; eassumption).
+        apply inj_le in H. lia.
+      - subst n2. rewrite wsum_nil in E2. change w0 with (inj 0) in E2. apply inj_inj in E2. lia. }
+    exists n1, a, (n2 ++ Zs ++ P), (Z.max f y1).
+    split; [rewrite EN at 1; rewrite <- app_assoc; reflexivity|].
+    split.
+    { rewrite (repr_N a HaN). apply a_quantile_neg; [exact Hcne|rewrite Hrank, TN; exact Hbr|].
+      rewrite Hrank, TN, <- Er'. exact Hsel. }
+    split; [lia|]. rewrite E1, Ea, <- inj_plus. split; [apply inj_mono|apply inj_mono_lt]; lia.
+  - assert (EZN : rnd (wadd (a_zero s) (total (a_neg s))) = inj (zZ + zN)).
+    { rewrite TZ, TN. unfold wadd. rewrite <- inj_plus. apply rnd_int. lia. }
+    destruct (Qclt_le_dec rho (inj (zZ + zN))) as [Hbr2|Hbr2].
+    + (* zero branch *)
+      assert (HZne : Zs <> []).
+      { intros E. subst Zs. rewrite wsum_nil in EZ0. change w0 with (inj 0) in EZ0.
+        apply inj_inj in EZ0. subst zZ. cbn [Z.add] in Hbr2. exact (Qclt_not_le _ _ Hbr2 Hbr). }
+      destruct (find_split Zs (rho - inj zN) HwZ HZne) as [z1 [a [z2 [EZ [C1 C2]]]]].
+      destruct (Hsplit Zs z1 a z2 HiZ EZ) as [y1 [ca [y2 [Hy1 [Hca [Hy2 [E1 [Ea [E2 Et]]]]]]]]].
+      rewrite EZ0 in Et. apply inj_inj in Et.
+      assert (HaZ : isZ a = true).
+      { rewrite Forall_forall in HZ. apply HZ. rewrite EZ. apply in_elt. }
+      assert (K1 : (zN + y1 <= c)%Z).
+      { apply inj_le. rewrite inj_plus. destruct C1 as [C1|C1].
+        - rewrite E1 in C1. qlra.
+        - subst z1. rewrite wsum_nil in E1. change w0 with (inj 0) in E1. apply inj_inj in E1.
+          subst y1. rewrite inj_0. qlra. }
+      assert (K2 : (f < zN + y1 + ca)%Z).
+      { destruct C2 as [C2|C2].
+        - apply inj_lt. rewrite !inj_plus. rewrite E1, Ea in C2. qlra.
+        - subst z2. rewrite wsum_nil in E2. change w0 with (inj 0) in E2. apply inj_inj in E2.
+          assert (Hf2 : (f < zZ + zN)%Z) by (apply inj_lt; eapply Qcle_lt_trans; eassumption).
+          lia. }
+      exists (N ++ z1), a, (z2 ++ P), (Z.max f (zN + y1)). split.
+      { rewrite EZ at 1. rewrite <- !app_assoc. reflexivity. }
+      split.
+      { rewrite (repr_Z a HaZ). apply a_quantile_zero; [exact Hcne|rewrite Hrank, TN; exact Hbr|].
+        rewrite Hrank, EZN. exact Hbr2. }
+      split; [lia|]. rewrite wsum_app, EN0, E1, Ea, <- !inj_plus.
+      split; [apply inj_mono|apply inj_mono_lt]; lia.
+    + (* positive branch *)
+      assert (Hc2 : (zZ + zN <= c)%Z). { apply inj_le. eapply Qcle_trans; eassumption. }
+      remember (rnd (wsub (rnd (wsub rho (a_zero s))) (total (a_neg s)))) as r' eqn:Er'.
+      rewrite TZ, TN in Er'.
+      assert (Hin_lo : inj (f - zZ) <= rnd (wsub rho (inj zZ))).
+      { apply (rnd_ge_int rnd B rnd_mono rnd_int); [lia|]. rewrite inj_minus. qlra. }
+      assert (Hin_hi : rnd (wsub rho (inj zZ)) <= inj (c - zZ)).
+      { apply (rnd_le_int rnd B rnd_mono rnd_int); [lia|]. rewrite inj_minus. qlra. }
+      assert (Hr'lo : inj (f - zZ - zN) <= r').
+      { rewrite Er'. apply (rnd_ge_int rnd B rnd_mono rnd_int); [lia|].
+        rewrite inj_minus in Hin_lo |- *. rewrite inj_minus. qlra. }
+      assert (Hr'hi : r' <= inj (c - zZ - zN)).
+      { rewrite Er'. apply (rnd_le_int rnd B rnd_mono rnd_int); [lia|].
+        rewrite inj_minus in Hin_hi |- *. rewrite inj_minus. qlra. }
+      assert (HPne : P <> []).
+      { intros E. subst P. rewrite wsum_nil in EP0. change w0 with (inj 0) in EP0.
+        apply inj_inj in EP0. lia. }
+      destruct (find_split P r' HwP HPne) as [p1 [a [p2 [EP [C1 C2]]]]].
+      destruct (Hsplit P p1 a p2 HiP EP) as [y1 [ca [y2 [Hy1 [Hca [Hy2 [E1 [Ea [E2 Et]]]]]]]]].
+      rewrite EP0 in Et. apply inj_inj in Et.
+      assert (HaP : isP a = true).
+      { rewrite Forall_forall in HP. apply HP. rewrite EP. apply in_elt. }
+      assert (Hsel : key_at_rank (a_pos s) r' = Some (am_index m (fst a))).
+      { rewrite CP. rewrite EP at 1. rewrite EP in HwP, HP, HokP, HsP.
+        apply select_pos; assumption. }
+      assert (K1 : (zN + zZ + y1 <= c)%Z).
+      { destruct C1 as [C1|C1].
+        - rewrite E1 in C1. assert (H : inj y1 <= inj (c - zZ - zN)) by (eapply Qcle_trans; eassumption).
+          apply inj_le in H. lia.
+        - subst p1. rewrite wsum_nil in E1. change w0 with (inj 0) in E1. apply inj_inj in E1. lia. }
+      assert (K2 : (f < zN + zZ + y1 + ca)%Z).
+      { destruct C2 as [C2|C2].
+        - rewrite E1, Ea, <- inj_plus in C2.
+          assert (H : inj (f - zZ - zN) < inj (y1 + ca)) by (eapply Qcle_lt_trans; eassumption).
+          apply inj_lt in H. lia.
+        - subst p2. rewrite wsum_nil in E2. change w0 with (inj 0) in E2. apply inj_inj in E2. lia. }
+      exists (N ++ Zs ++ p1), a, p2, (Z.max f (zN + zZ + y1)). split.
+      { rewrite EP at 1. rewrite <- !app_assoc. reflexivity. }
+      split.
+      { rewrite (repr_P a HaP).
+        apply a_quantile_pos; [exact Hcne|rewrite Hrank, TN; exact Hbr|rewrite Hrank, EZN; exact Hbr2|].
+        rewrite Hrank, TZ, TN, <- Er'. exact Hsel. }
+      split; [lia|]. rewrite !wsum_app, EN0, EZ0, E1, Ea, <- !inj_plus.
+      split; [apply inj_mono|apply inj_mono_lt]; lia.
+Qed.
+
+(* THEOREM B under rounding, positive integer weights with total n <= B: some integer rank k
+   between floor and ceil of q*(n-1) falls inside the cumulative-weight interval [C_j, C_j + c_j)
+   of the selected value *)
+Theorem weighted_quantile_integer xs ys s q n :
+  a_add_list a_new xs = Some s -> Permutation xs ys -> StronglySorted vle ys -> intw ys ->
+  ys <> [] -> wsum ys = inj n -> (n <= B)%Z -> 0 <= q -> q <= 1 ->
+  exists l1 a l2 (k : Z),
+    ys = l1 ++ a :: l2 /\
+    a_quantile rnd m s q = Some (repr (fst a)) /\
+    (cfloor (q * inj (n - 1)) <= k <= cceil (q * inj (n - 1)))%Z /\
+    wsum l1 <= inj k /\ inj k < wsum l1 + snd a.
+Proof.
+  intros Hadd Hperm Hs Hi Hne HWn HB Hq0 Hq1.
+  assert (Hwx : wpos xs).
+  { apply (wpos_perm ys); [apply Permutation_sym; exact Hperm|apply intw_wpos; exact Hi]. }
+  destruct (sketch_content xs ys s Hadd Hperm Hwx) as [CP [CN [CZ Hok]]].
+  pose proof (sorted_decomp ys Hs) as Hdec.
+  pose proof (weighted_integer_core (filter isN ys) (filter isZ ys) (filter isP ys) s q n) as G.
+  rewrite <- Hdec in G. apply G; try assumption; apply Forall_filter_true.
+Qed.
+End IntegerWeights.
+
+(* ================================================================== *)
+(** * 6. The answer lies between the sketch's minimum and maximum      *)
+(* ================================================================== *)
+
+Lemma lsum_ge_entry l k c : nonneg l -> In (k, c) l -> c <= lsum l k.
+Proof.
+  unfold lsum. induction l as [|[k' c'] l IH]; intros Hn Hin; [contradiction|].
+  apply nonneg_cons in Hn. destruct Hn as [Hc Hn]. rewrite gsum_cons.
+  pose proof (gsum_nonneg (fun k0 => k =? k0)%Z l Hn) as Hg.
+  destruct Hin as [E|Hin].
+  - injection E as -> ->. rewrite Z.eqb_refl. qlra.
+  - specialize (IH Hn Hin). destruct (k =? k')%Z; qlra.
+Qed.
+Lemma key_present (f : item -> Z) l a :
+  wpos l -> In a l -> get (bins_of_list (map (fun a => (f a, snd a)) l)) (f a) <> w0.
+Proof.
+  intros Hw Hin. pose proof (wpos_nonneg_map f l Hw) as Hn.
+  rewrite get_bins_of_list by exact Hn.
+  assert (Hin' : In (f a, snd a) (map (fun a => (f a, snd a)) l)).
+  { apply in_map_iff. exists a. split; [reflexivity|exact Hin]. }
+  pose proof (lsum_ge_entry _ _ _ Hn Hin') as Hle.
+  unfold wpos in Hw. rewrite Forall_forall in Hw. specialize (Hw a Hin). qlra.
+Qed.
+
+Section MinMax.
+Hypothesis value_mono : forall i j, (i <= j)%Z -> am_value m i <= am_value m j.
+Hypothesis value_nonneg : forall i, 0 <= am_value m i.
+
+Lemma repr_between_min_max N Zs P s a :
+  wpos (N ++ Zs ++ P) ->
+  Forall (fun a => isN a = true) N -> Forall (fun a => isZ a = true) Zs ->
+  Forall (fun a => isP a = true) P ->
+  a_pos s = bins_of_list (map kpos P) -> a_neg s = bins_of_list (map kneg N) ->
+  a_zero s = wsum Zs ->
+  In a (N ++ Zs ++ P) ->
+  exists lo hi, a_min m s = Some lo /\ a_max m s = Some hi /\ lo <= repr (fst a) /\ repr (fst a) <= hi.
+Proof.
+  intros Hw HN HZ HP CP CN CZ Hin.
+  pose proof Hw as Hw'. unfold wpos in Hw'. apply Forall_app in Hw'. destruct Hw' as [HwN Hw'].
+  apply Forall_app in Hw'. destruct Hw' as [HwZ HwP].
+  assert (WFP : wf (a_pos s) = true).
+  { rewrite CP. apply wf_bins_of_list. apply (wpos_nonneg_map (fun a => am_index m (fst a))). exact HwP. }
+  assert (WFN : wf (a_neg s) = true).
+  { rewrite CN. apply wf_bins_of_list. apply (wpos_nonneg_map (fun a => am_index m (- fst a))). exact HwN. }
+  assert (KP : forall b, In b P -> get (a_pos s) (am_index m (fst b)) <> w0).
+  { intros b Hb. rewrite CP. apply (key_present (fun a => am_index m (fst a)) P b HwP Hb). }
+  assert (KN : forall b, In b N -> get (a_neg s) (am_index m (- fst b)) <> w0).
+  { intros b Hb. rewrite CN. apply (key_present (fun a => am_index m (- fst a)) N b HwN Hb). }
+  assert (ZP : forall b, In b Zs -> w0 < a_zero s).
+  { intros b Hb. rewrite CZ. apply wsum_pos; [exact HwZ|]. intros E. subst Zs. contradiction. }
+  rewrite Forall_forall in HN, HZ, HP.
+  (* the class of a *)
+  assert (Hcls : (In a N /\ repr (fst a) = - am_value m (am_index m (- fst a))) \/
+                 (In a Zs /\ repr (fst a) = 0) \/
+                 (In a P /\ repr (fst a) = am_value m (am_index m (fst a)))).
+  { apply in_app_iff in Hin. destruct Hin as [Hin|Hin].
+    - left. split; [exact Hin|apply repr_N; apply HN; exact Hin].
+    - apply in_app_iff in Hin. destruct Hin as [Hin|Hin].
+      + right; left. split; [exact Hin|apply repr_Z; apply HZ; exact Hin].
+      + right; right. split; [exact Hin|apply repr_P; apply HP; exact Hin]. }
+  assert (Hlo : exists lo, a_min m s = Some lo /\ lo <= repr (fst a)).
+  { unfold a_min. destruct (max_key (a_neg s)) as [kmax|] eqn:EM.
+    - exists (- am_value m kmax). split; [reflexivity|].
+      pose proof (value_nonneg kmax) as V0.
+      destruct Hcls as [[Ha ->]|[[Ha ->]|[Ha ->]]].
+      + pose proof (max_key_ge _ kmax _ WFN EM (KN a Ha)) as Hle. apply value_mono in Hle. qlra.
+      + qlra.
+      + pose proof (value_nonneg (am_index m (fst a))). qlra.
+    - apply max_key_none in EM.
+      assert (HnoN : ~ In a N). { intros Ha. apply (KN a Ha). rewrite EM. reflexivity. }
+      destruct (wltb_spec w0 (a_zero s)) as [E0|E0].
+      + exists 0. split; [reflexivity|]. destruct Hcls as [[Ha _]|[[Ha ->]|[Ha ->]]]; [contradiction|qlra|].
+        apply value_nonneg.
+      + destruct Hcls as [[Ha _]|[[Ha _]|[Ha ->]]]; [contradiction|exfalso; apply E0; eapply ZP; exact Ha|].
+        destruct (min_key (a_pos s)) as [kmin|] eqn:Em.
+        * exists (am_value m kmin). split; [reflexivity|]. apply value_mono.
+          apply (min_key_le _ kmin _ WFP Em (KP a Ha)).
+        * exfalso. apply min_key_none in Em. apply (KP a Ha). rewrite Em. reflexivity. }
+  assert (Hhi : exists hi, a_max m s = Some hi /\ repr (fst a) <= hi).
+  { unfold a_max. destruct (max_key (a_pos s)) as [kmax|] eqn:EM.
+    - exists (am_value m kmax). split; [reflexivity|].
+      pose proof (value_nonneg kmax) as V0.
+      destruct Hcls as [[Ha ->]|[[Ha ->]|[Ha ->]]].
+      + pose proof (value_nonneg (am_index m (- fst a))). qlra.
+      + qlra.
+      + apply value_mono. apply (max_key_ge _ kmax _ WFP EM (KP a Ha)).
+    - apply max_key_none in EM.
+      assert (HnoP : ~ In a P). { intros Ha. apply (KP a Ha). rewrite EM. reflexivity. }
+      destruct (wltb_spec w0 (a_zero s)) as [E0|E0].
+      + exists 0. split; [reflexivity|]. destruct Hcls as [[Ha ->]|[[Ha ->]|[Ha _]]]; [|qlra|contradiction].
+        pose proof (value_nonneg (am_index m (- fst a))). qlra.
+      + destruct Hcls as [[Ha ->]|[[Ha _]|[Ha _]]]; [|exfalso; apply E0; eapply ZP; exact Ha|contradiction].
+        destruct (min_key (a_neg s)) as [kmin|] eqn:Em.
+        * exists (- am_value m kmin). split; [reflexivity|].
+          pose proof (min_key_le _ kmin _ WFN Em (KN a Ha)) as Hle. apply value_mono in Hle. qlra.
+        * exfalso. apply min_key_none in Em. apply (KN a Ha). rewrite Em. reflexivity. }
+  destruct Hlo as [lo [L1 L2]]. destruct Hhi as [hi [H1 H2]].
+  exists lo, hi. repeat split; assumption.
+Qed.
+
+Lemma absorbed_between_min_max xs s a :
+  a_add_list a_new xs = Some s -> wpos xs -> In a xs ->
+  exists lo hi, a_min m s = Some lo /\ a_max m s = Some hi /\ lo <= repr (fst a) /\ repr (fst a) <= hi.
+Proof.
+  intros Hadd Hw Hin.
+  destruct (sketch_content xs xs s Hadd (Permutation_refl xs) Hw) as [CP [CN [CZ _]]].
+  assert (Hperm : Permutation xs (filter isN xs ++ filter isZ xs ++ filter isP xs)).
+  { clear - mn0. induction xs as [|b l IH]; [constructor|]. cbn [filter]. unfold isZ at 1.
+    destruct (isN b) eqn:EN.
+    - rewrite (isN_isP b EN). cbn [negb andb app]. constructor. exact IH.
+    - destruct (isP b); cbn [negb andb].
+      + eapply Permutation_trans; [constructor; exact IH|].
+        rewrite app_assoc. eapply Permutation_trans; [apply Permutation_middle|].
+        rewrite <- app_assoc. apply Permutation_refl.
+      + eapply Permutation_trans; [constructor; exact IH|]. apply Permutation_middle. }
+  apply (repr_between_min_max (filter isN xs) (filter isZ xs) (filter isP xs) s a);
+    try assumption; try apply Forall_filter_true.
+  - apply (wpos_perm xs); assumption.
+  - apply (Permutation_in _ Hperm). exact Hin.
+Qed.
+
+Corollary weighted_quantile_between xs ys s q :
+  a_add_list a_new xs = Some s -> Permutation xs ys -> StronglySorted vle ys -> wpos ys ->
+  ys <> [] -> 0 <= q -> q <= 1 ->
+  exists lo hi y, a_min m s = Some lo /\ a_max m s = Some hi /\
+    a_quantile idr m s q = Some y /\ lo <= y /\ y <= hi.
+Proof.
+  intros Hadd Hperm Hs Hw Hne Hq0 Hq1.
+  destruct (weighted_quantile_absorbed xs ys s q Hadd Hperm Hs Hw Hne Hq0 Hq1) as [a [Ha K]].
+  assert (Hwx : wpos xs) by (apply (wpos_perm ys); [apply Permutation_sym; exact Hperm|exact Hw]).
+  destruct (absorbed_between_min_max xs s a Hadd Hwx Ha) as [lo [hi [M1 [M2 [M3 M4]]]]].
+  exists lo, hi, (repr (fst a)). repeat split; assumption.
+Qed.
+End MinMax.
+End Sketch.
+
+(* ================================================================== *)
+(** * 7. A rounding operator for the counterexample of Props/Rank.v    *)
+(* ================================================================== *)
+(* round half up to the nearest integer: monotone, fixes every integer, error <= 1/2.  With
+   fractional weights it breaks the bracket C_j - 1 <= q*(W-1) of Theorem B (Props/Rank.v,
+   [cx_rounded]); this is why Theorem B is stated for exact arithmetic, or for integer weights. *)
+Definition rnd_half (x : Qc) : Qc := inj (cfloor (x + Q2Qc (1 # 2))).
+Lemma half_val : this (Q2Qc (1 # 2)) = (1 # 2)%Q.
+Proof. reflexivity. Qed.
+Lemma rnd_half_mono x y : x <= y -> rnd_half x <= rnd_half y.
+Proof.
+  intros H. unfold rnd_half. apply inj_mono. apply cfloor_spec.
+  pose proof (cfloor_le (x + Q2Qc (1 # 2))) as H1. qlra.
+Qed.
+Lemma rnd_half_int z : rnd_half (inj z) = inj z.
+Proof.
+  unfold rnd_half. f_equal.
+  assert (H1 : (z <= cfloor (inj z + Q2Qc (1 # 2)))%Z).
+  { apply cfloor_spec. unfold Qcle. rewrite this_plus, half_val. lra. }
+  assert (H2 : (cfloor (inj z + Q2Qc (1 # 2)) < z + 1)%Z).
+  { apply cfloor_ub. rewrite inj_plus, inj_1. unfold Qclt, w1. rewrite !this_plus, half_val.
+    change (this (Q2Qc 1)) with 1%Q. lra. }
+  lia.
+Qed.
+Lemma rnd_half_err x : Qcabs (rnd_half x - x) <= Q2Qc (1 # 2).
+Proof.
+  apply Qcabs_Qcle_condition. unfold rnd_half.
+  pose proof (cfloor_le (x + Q2Qc (1 # 2))) as H1. pose proof (cfloor_lt (x + Q2Qc (1 # 2))) as H2.
+  rewrite inj_plus, inj_1 in H2. unfold Qcle, Qclt, w1 in *.
+  rewrite ?this_plus, ?this_minus, ?this_opp, ?half_val in *.
+  change (this (Q2Qc 1)) with 1%Q in *. split; lra.
 Qed.
